@@ -92,7 +92,7 @@ def build_pair(tape, opts, max_msgs=6, apis=("deferred", "delegate"),
 
 
 CONN_FAULTS = ("cut", "half_open", "server_restart", "refuse", "hang",
-               "stall")
+               "stall", "ws_close")
 MSG_FAULTS = ("mbox_dup", "mbox_reorder", "mbox_replay_stored")
 
 
